@@ -454,7 +454,7 @@ func gen(path string) {
 	}
 	nrand, nbound, npair := 120, 40, 0
 	if thorough {
-		nrand, nbound, npair = 2500, 600, 4000
+		nrand, nbound, npair = 4000, 1000, 7000
 	}
 	for _, t := range types {
 		core := specials(t, false)
